@@ -70,7 +70,8 @@ class C04:
                     kind = rc.choice(kinds)
                     perturb.append({"kind": kind, "at": rc.randint(0, 6), "seed": rc.randrange(1 << 30)})
             comps.append({"rows": rws, "perturb": perturb})
-        return {"cfg": cfg, "instances": [E.enc_row(r) for r in rows], "strategies": strategies,
+        env_cfg = E.cross_size_cfg(cfg, rc) if rc.random() < 0.15 else None
+        return {"cfg": cfg, "env_cfg": env_cfg, "instances": [E.enc_row(r) for r in rows], "strategies": strategies,
                 "compositions": comps}
 
     # ---------------------------------------------------------------------------------------------
@@ -110,7 +111,9 @@ class C04:
         name = cfg["env"]
         rows = [E.dec_row(r) for r in plan["instances"]]
         with run.guard(name, "construct env"):
-            env = E.make_env(cfg)
+            env = E.make_env(plan.get("env_cfg") or cfg)
+        if plan.get("env_cfg"):
+            run.fault("cross_size_env")
         solo = []
         for i, row in enumerate(rows):
             solo.append(_solo(run, env, cfg, row, plan["strategies"][i], i))
